@@ -191,6 +191,28 @@ def run(tier: str) -> int:
             except Exception:  # noqa: BLE001
                 continue
             rep.violation(f"mul-not-refused:{sname}:{aname}", f"{sname} * {n!r} was not refused", {"subject": sname, "n": repr(n)})
+        # the reflected spelling n * x (where Python reaches the library at all: numbers; a str or None on the left raises by itself)
+        for aname, n in bad.items():
+            if isinstance(n, (str, type(None))):
+                continue
+            rep.count(f"refuse-reflected:{sname}:{aname}")
+            try:
+                n * mk()
+            except Exception:  # noqa: BLE001
+                continue
+            rep.violation(f"rmul-not-refused:{sname}:{aname}", f"{n!r} * {sname} was not refused", {"subject": sname, "n": repr(n)})
+        for aname, n in good.items():
+            try:
+                r = n * mk()
+                elems = getattr(r, "moves", None) or getattr(r, "operations", None)
+                base = 2 if sname.startswith("composite") else 1
+                left = mk() * n
+                if len(elems) != base * n or type(r) is not type(left):
+                    rep.violation(f"rmul-differs:{sname}", f"{n} * {sname} is a {type(r).__name__} of {len(elems)} elements, {sname} * {n} a {type(left).__name__}", {"subject": sname, "n": n})
+            except TypeError:
+                pass   # the reflected spelling is not offered for this subject (Python's "unsupported operand"): nothing is claimed
+            except Exception as ex:  # noqa: BLE001
+                rep.violation(f"rmul-refused:{sname}:{aname}", f"{n} * {sname} raised {ex!r}", {"subject": sname, "n": n})
         for aname, n in good.items():
             rep.count(f"accept:{sname}:{aname}")
             try:
